@@ -142,6 +142,12 @@ func (C03) Execute(sc *drv.Scenario, w *drv.World) (*drv.Violation, error) {
 					return nil, err
 				}
 			}
+			if v == nil && sc.Knobs.MutLogJSON {
+				v, err = x.CheckMutationLogs("C03")
+				if err != nil {
+					return nil, err
+				}
+			}
 			if v != nil {
 				v.Step = i
 				v.Oracle = "rebuilt-state-behaves: " + v.Oracle
